@@ -269,10 +269,18 @@ RAW_LINES = [None, "", "\n", "abc", "1;2;3;1;4;a;b\n", "1;2;3;0;4", " 1;+2;1;-1;
 
 def real_send(gw, rec, line):
     rec["pubs"].clear()
+    rec["jobs"].clear()
+    queue = getattr(gw.tasks, "queue", None)
+    if queue is not None:
+        queue.clear()
     try:
         gw.tasks.transport.send(line)
     except Exception as exc:  # noqa: BLE001
         return ("raised", G.exc_kind(exc))
+    if rec["jobs"] or queue:
+        # sending is the end of the line: a send that puts work back into the pump (a retry of a failed
+        # publish, say) keeps the pump busy with that one command for as long as the callback keeps failing
+        return ("raised", f"send-queued-work:{len(rec['jobs']) + len(queue or ())}")
     return ("ok", list(rec["pubs"]))
 
 
